@@ -922,7 +922,7 @@ fn run_two(pa: Vec<Sexp>, pb: Vec<Sexp>, sched: Vec<usize>) -> Option<Sexp> {
         handles.push(fresh_thread(move || thread_main(prog, Some(Turn { go: grx, reply: rtx }))));
     }
     let wait = |t: usize| -> Option<bool> {
-        match reply_rx[t].recv_timeout(Duration::from_secs(30)) {
+        match reply_rx[t].recv_timeout(Duration::from_secs(300)) {
             Ok(Reply::Ready) => Some(false),
             Ok(Reply::Finished) => Some(true),
             Err(_) => None,
